@@ -91,7 +91,8 @@ def run_tlc(module, cfg, wd, env=None, workers=1, timeout=1800, extra=None, simu
     m = re.search(r"(\d+) states generated, (\d+) distinct states found", out)
     res["states"] = int(m.group(2)) if m else 0
     res["transitions"] = int(m.group(1)) if m else 0
-    res["violations"] = [(a, int(b), int(c)) for a, b, c in re.findall(r'<<"VIOLATION", "(C\d+)", (\d+), (\d+)>>', out)]
+    res["violations"] = [(a, int(b), int(c), d) for a, b, c, d in re.findall(r'<<"VIOLATION", "(C\d+)", (\d+), (\d+)(?:, "([^"]*)")?>>', out)]
+    res["aux"] = [(int(h), i == "TRUE", s == "TRUE", int(n)) for h, i, s, n in re.findall(r'<<"AUX", (\d+), (TRUE|FALSE), (TRUE|FALSE), (\d+)>>', out)]
     res["rejected"] = "TRACE-REJECTED" in out
     res["completed"] = ("Model checking completed" in out) or ("Finished in" in out and simulate is not None)
     res["errors"] = [l for l in out.split("\n") if l.startswith("Error:")]
